@@ -317,3 +317,20 @@ K("awkward_ListOffsetArray_reduce_nonlocal_preparenext_64",
   ensures_ok=["maxnextparents[0] >= 0"],
   notes="maxnextparents >= 0 is what sizes nextstarts (maxnextparents + 1) and the next level's outlength; termination of the outer while depends on sum(counts) == nextlen (caller's obligation); not proved here",
   serves=["C03", "C12", "C13"])
+
+
+# ---------------------------------------------------------------- UnionArray flatten (T** offsetsraws: one offsets array per content)
+for nm in ["awkward_UnionArray_flatten_length", "awkward_UnionArray_flatten_combine"]:
+    K(nm,
+      # C05 (flattening a union of lists concatenates, in order, the list each element selects): the flattened
+      # elements of union element i carry its tag and run over exactly its list's positions [start, stop)
+      **({"store_asserts": {"totags": ["at == k", "value == fromtags[i]"],
+                            "toindex": ["at == k", "value == j", "start <= value and value < stop"],
+                            "tooffsets@L0": ["at == i + 1", "value == tooffsets[i] + (stop - start)"]}}
+         if nm.endswith("combine") else {}),
+      extents={"offsetsraws": "ghost_ncontents", "fromtags": "length", "fromindex": "length"},
+      ghost={"ghost_ncontents": ([], None)},
+      requires=["ghost_ncontents >= 0", INRANGE("fromtags", "length", "ghost_ncontents"), NONNEG("fromindex", "length")],
+      per_spec={"U32": {"requires": ["forall(q, 0, length, fromindex[q] < 4294967295)"]}},
+      notes="offsetsraws is a T**: its rows (one offsets array per union content) have no length parameter; index obligations on the rows are not generated (listed as unchecked), the row selection itself is",
+      serves=["C05", "C12", "C13"])
